@@ -597,6 +597,18 @@ def mutate(rng, doc, fsep=None):
     return "no-final-newline", doc.rstrip(b"\n") if rng.random() < 0.5 else doc + b"\n\n\n"
 
 
+def main_flags_with_argument(ctx):
+    """[[spelling, alternative spellings...]] of the main flags that take an argument, from the binary's own `mlr help flags`"""
+    st, out, err = run_cli(ctx, ["help", "flags"], b"", timeout=60)
+    res = []
+    for m in re.finditer(rb"(?m)^(-\S+(?: or -\S+)*) \{[^}\n]*\}", out):
+        names = [n.decode() for n in m.group(1).split(b" or ")]
+        if names not in res:
+            res.append(names)
+    ctx.cov["main_flags_with_argument"] = [n[0] for n in res]
+    return res
+
+
 def reader_cases(ctx):
     rng = ctx.rng
     per = 6 if ctx.tier == "quick" else 120
@@ -643,6 +655,19 @@ def reader_cases(ctx):
             flag = FMT_FLAG.get(fmt, ["--i" + fmt])
             for kind, d in docs:
                 cases.append({"fmt": fmt, "opt": oname, "kind": kind, "args": flag + EXTRA_OPTSETS[oname] + ["--ojson", "cat"], "stdin": d})
+    # third wave: option VALUES.  Every main flag that takes an argument (regenerated from `mlr help flags`: lines `--flag {arg}`) x short / empty /
+    # garbage / negative / huge values (a spec shorter than a prefix the code slices off, a zero modulus, a negative channel size ...)
+    fl = main_flags_with_argument(ctx)
+    FLAG_VALUES = ["", "a", "abc", "-1", "0", "1e9", "x:y", "\xff", ";", "widths:", ",", "9223372036854775808", "left-align-multi-word "]
+    some_fmts = ["csv", "dkvp", "pprint", "xtab", "nidx", "json", "tsv", "markdown"]
+    for names in fl:
+        for f in (names if ctx.tier == "thorough" else names[:1]):
+            for v in FLAG_VALUES:
+                fmts = some_fmts if ctx.tier == "thorough" else [rng.choice(some_fmts)]
+                if ("fixed" in f or f == "--fw") and "pprint" not in fmts:
+                    fmts = fmts + ["pprint"]
+                for fmt in fmts:
+                    cases.append({"fmt": fmt, "opt": "value:" + f, "kind": "flag-value", "args": FMT_FLAG[fmt] + [f, v, "--ojson", "cat"], "stdin": SEEDS[fmt][0]})
     # the input-format spellings themselves
     for fmt, seeds in SEEDS.items():
         name = {"markdown": "markdown", "recutils": "recutils"}.get(fmt, fmt)
@@ -663,7 +688,7 @@ def reader_part(ctx, exe):
     for i, c in enumerate(cases):
         c["id"] = i
         # one worker per format; the option sets that switch process-global state (type inference) get their own
-        glob = c["opt"] if c["opt"] in ("S", "A", "O", "infer-S+no-dedupe") else "plain"
+        glob = c["opt"] if c["opt"] in ("S", "A", "O", "infer-S+no-dedupe") else ("flag-value" if c["kind"] == "flag-value" else "plain")
         groups.setdefault((c["fmt"], glob), []).append(c)
         ctx.dist("reader:" + c["fmt"]); ctx.dist("reader-mutation:" + c["kind"].split("+")[0])
     with ctx.timed("reader_inproc"):
@@ -1151,6 +1176,109 @@ def classified_reader_correspondence(ctx, exe):
 
 
 # ---------------------------------------------------------------------------------------------------------------
+# JSON record-reader layer (coq/C18/ModelJson.v): documents generated FROM abstract streams of top-level values
+# ---------------------------------------------------------------------------------------------------------------
+JKIND = {"int": 1, "float": 2, "bool": 3, "boolean": 3, "string": 4, "empty": 5, "null": 6, "array": 7, "map": 8}
+JSCALARS = [(1, b"17"), (1, b"-3"), (2, b"1.5"), (2, b"-2.5e3"), (3, b"true"), (3, b"false"), (4, b'"s"'), (4, b'"\\u00e9 x"'), (5, b'""'), (6, b"null")]
+JGARBAGE = [b"}", b"]", b'{"a"', b'{"a":}', b"nul", b"@", b"{]", b'[{"id":1},]', b'{"id":1,}', b"{'id':1}", b",", b'{"a" 1}', b"[1 2]", b'"abc', b"tru", b'{"a":[}']
+
+
+def json_layer_correspondence(ctx, exe):
+    rng = ctx.rng
+    n = 220 if ctx.tier == "quick" else 4000
+    streams = []
+    nid = [0]
+
+    def obj():
+        nid[0] += 1
+        extra = rng.choice([b"", b',"v":[1,{"w":null}]', b',"s":"x y"', b',"m":{"id":999}', b',"e":""'])
+        return nid[0], b'{"id":%d%s}' % (nid[0], extra)
+
+    def top():
+        k = rng.randrange(10)
+        if k < 4:
+            i, t = obj()
+            return "(TMap %d)" % i, t, False
+        if k < 6:
+            es = [obj() for _ in range(rng.randint(0, 3))]
+            return "(TArr [%s])" % "; ".join("EMap %d" % i for i, _ in es), b"[" + b",".join(t for _, t in es) + b"]", False
+        if k < 8:
+            es, txt = [], []
+            for _ in range(rng.randint(1, 4)):
+                if rng.random() < 0.5:
+                    i, t = obj(); es.append("EMap %d" % i); txt.append(t)
+                else:
+                    kind, t = rng.choice(JSCALARS + [(7, b"[1]"), (7, b"[]"), (7, b'[{"id":5}]')])
+                    es.append("EOther %d" % kind); txt.append(t)
+            return "(TArr [%s])" % "; ".join(es), b"[" + rng.choice([b",", b" , ", b",\n"]).join(txt) + b"]", False
+        if k < 9:
+            kind, t = rng.choice(JSCALARS)
+            return "(TScalar %d)" % kind, t, True
+        return "TDecodeErr", rng.choice(JGARBAGE), True
+    fixed = [[], [("(TArr [])", b"[]", False)] * 2]
+    for _ in range(n):
+        vs, stop = [], False
+        for _ in range(rng.randint(0, 5)):
+            term, txt, last = top()
+            vs.append((term, txt, last))
+            if term == "TDecodeErr":
+                break
+        streams.append(vs)
+    streams = fixed + streams
+    reqs, docs = [], []
+    for i, vs in enumerate(streams):
+        doc = b""
+        for term, txt, need_ws in vs:
+            doc += txt + (rng.choice([b" ", b"\n", b"\n\n", b"\t"]) if need_ws else rng.choice([b"", b" ", b"\n", b"\r\n"]))
+        docs.append(doc)
+        reqs.append({"id": i, "args": ["--ijson", "--ojsonl", "cat"], "stdin": doc})
+    with ctx.timed("json_layer_inproc"):
+        res = inproc_many(exe, [reqs[k::NJOBS] for k in range(NJOBS)])
+    terms, tmeta, tally = [], [], {}
+    for i, vs in enumerate(streams):
+        o = res.get(i)
+        if not o or o["class"] not in ("ok", "exit") or o["out_len"] > 2000:
+            continue
+        if o["class"] == "ok":
+            ids = [int(m) for m in re.findall(rb'(?m)^\{"id": (\d+)', o["out"])]
+            if len(ids) != o["out"].count(b"\n"):
+                continue
+            obs, cls = "None", "ok"
+        else:
+            m = re.search(rb"valid but unmillerable JSON. Expected map \(JSON object\); got (\w+)", o["stderr"])
+            if m:
+                kind = JKIND.get(m.group(1).decode(), 99)
+                obs, cls = "(Some (Some %d%%N))" % kind, "err-unmillerable"
+            elif b"mlr" in o["stderr"] and b"nternal coding error" not in o["stderr"]:
+                obs, cls = "(Some None)", "err-decode"
+            else:
+                continue
+            ids = []
+        terms.append("([%s], [%s], %s)" % ("; ".join(t for t, _, _ in vs), "; ".join("%d" % x for x in ids), obs))
+        tmeta.append((docs[i], vs, cls))
+        tally[cls] = tally.get(cls, 0) + 1
+        ctx.count(("json-layer", docs[i])); ctx.dist("json-layer:" + cls)
+    with ctx.timed("coq_cases_json_layer"):
+        bad, cerr = coq_eval_mismatches(ctx, "C18_json", "C18.ModelJson C18.Harness", "list jtop * list N * option (option N)", "chkj", terms)
+    ctx.cov["json_layer_correspondence"] = {"cases": len(terms), "mismatches": len(bad), "per_outcome": tally}
+    if cerr:
+        ctx.violation({"broken": "correspondence-evaluation (JSON layer)", "detail": cerr[-2000:]}, found_input=False)
+        return
+    for i in [j for j in bad if j >= 0][:3]:
+        doc, vs, cls = tmeta[i]
+        st, out, e2 = run_cli(ctx, ["--ijson", "--ojsonl", "cat"], doc, timeout=25)
+        k = c18_classify(st, e2)
+        if k not in ("ok", "mlr_error"):
+            ctx.violation({"class": reader_class({"fmt": "json"}, k, e2), "part": "reader", "args": ["--ijson", "--ojsonl", "cat"], "stdin_hex": doc.hex(),
+                           "input": "mlr --ijson --ojsonl cat < stdin", "observed": "%s exit=%s %s" % (k, st, e2.decode("utf-8", "replace")[:400]),
+                           "expected": "records or an `mlr:` error with non-zero exit"})
+        else:
+            ctx.violation({"broken": "correspondence C18.Harness.chkj (JSON record-reader layer model vs implementation)", "class": "reader-model-disagreement-json-layer", "part": "reader-model",
+                           "stdin": doc.decode("latin1"), "stdin_hex": doc.hex(), "abstract_stream": [t for t, _, _ in vs], "observed_class": cls,
+                           "observed": "exit=%s %s %s" % (st, out[:200].decode("latin1"), e2[:200].decode("latin1"))}, found_input=False)
+
+
+# ---------------------------------------------------------------------------------------------------------------
 # part 3: DSL text mutations
 # ---------------------------------------------------------------------------------------------------------------
 TOKEN_RE = re.compile(r'"(?:[^"\\]|\\.)*"|[A-Za-z_$@][A-Za-z_0-9]*|\d+\.?\d*(?:[eE][-+]?\d+)?|0x[0-9a-fA-F]+|\*\*=?|//=?|\.\+|\.\*|\./|\.-|<<=?|>>>?=?|&&=?|\|\|=?|\^\^=?|\?\?\??=?|=~|!=~|[<>!=]=|<=>|[-+*/%.&|^]=|\S')
@@ -1393,6 +1521,12 @@ def stress_cases(ctx):
     inp("json-deep-objects", ["--ijson", "--ojsonl", "cat"], b'{"a":' * Q + b"1" + b"}" * Q)
     inp("json-deep-objects-flatten", ["--ijson", "--oxtab", "cat"], b'{"a":' * Q + b"1" + b"}" * Q)
     inp("json-deep-top-level-arrays", ["--ijson", "--ojson", "cat"], b"[" * N + b'{"a":1}' + b"]" * N)
+    # deeper than the Go stack allows (1 GB at about 300 bytes per level = 3.6 * 10^6 levels): a fatal "stack overflow" before the depth bound of 10000
+    inp("json-open-brackets-10^7", ["--ijson", "--ojson", "cat"], b"[" * (10 ** 7 if T else 4 * 10 ** 6))
+    inp("jsonl-open-brackets-deep", ["--ijsonl", "--ojson", "cat"], b"[" * (4 * 10 ** 6) + b"\n")
+    dsl("json-decode-open-brackets-deep", 'end{s="[";for(i=0;i<22;i+=1){s=s.s} print json_decode(s)}')
+    inp("json-depth-10001", ["--ijson", "--ojsonl", "cat"], b'{"a":' + b"[" * 10001 + b"]" * 10001 + b"}")
+    inp("json-depth-9999", ["--ijson", "--ojsonl", "nothing"], b'{"a":' + b"[" * 9998 + b"]" * 9998 + b"}")
     inp("json-close-brackets", ["--ijson", "--ojson", "cat"], b"]" * N)
     inp("json-long-string", ["--ijson", "--ojson", "cat"], b'{"a":"' + b"s" * (100 * N) + b'"}')
     inp("json-long-number", ["--ijson", "--ojson", "cat"], b'{"a":' + b"9" * (10 * N) + b"}")
@@ -1467,13 +1601,16 @@ VERB_BIG = "100000"      # "huge" counts stay below what is plain resource use (
 VERB_GENERIC = [[], ["-n"], ["-n", "-5"], ["-n", VERB_BIG], ["-n", "x"], ["-n", "9223372036854775808"], ["-f", ""], ["-f", "a,,b"], ["-f", "a"], ["-f"], ["-g", "a"],
                 ["--nosuchflag"], ["-"], ["--"], [""], ["-f", "a", "then"], ["then"], ["then", "then"], ["-f", "a", "then", "then", "cat"], ["x", "y", "z"],
                 ["-f", "a", "-n", "1", "-g", "b"], ["-f", "\xff\xfe"], ["-f", "a" * 20000], ["-f", "a", "-f"], ["-n", "1.5"], ["-n", "0"], ["-f", ",", "-g", ","], ["-h"]]
-VERB_GENERIC_QUICK = [0, 1, 2, 3, 4, 6, 7, 9, 11, 14, 15, 17, 18, 19, 25, 26]
+VERB_GENERIC_QUICK = [0, 1, 2, 3, 4, 7, 9, 11, 14, 15, 17, 18, 25]
 VERB_FLAG_ARGS = [None, "", "a", "-5", VERB_BIG, "a,,b", "0", "x=y", "1e309", "\xff"]
-VERB_FLAG_ARGS_QUICK = [0, 1, 3, 5]
+VERB_FLAG_ARGS_QUICK = [0, 1, 3]
 VERB_DEFAULT_CANDIDATES = [[], ["-f", "a"], ["-n", "1"], ["-f", "a", "-g", "b"], ["-a", "sum", "-f", "a"], ["a", "b"], ["$z=1"], ["true"], ["--ivar", ";", "-f", "a"],
                            ["-f", "/dev/null", "-j", "a"], ["-i", "a,b", "-o", "k,v"], ["a"], ["-a", "sum", "-f", "a,b", "-o", "ab"], ["-a", "delta", "-f", "a"],
                            ["-f", "a", "--lo", "0", "--hi", "1"], ["--at-least", "a"], ["--stop", "3"], ["-f", "a", "b", "c"], ["-u", "-f", "a"], ["-n", "2"], ["out.tmp"],
                            ["-d", "a", "-s", "b"], ["-k", "a", "-v", "b"], ["-a", "cov", "-f", "a,b"], ["-a"], ["-f", "a,b"], ["-x", "a", "-y", "b"], ["-r", "a", "b"]]
+VERB_PREFERRED = {"put": ["$z = $a . 1"], "filter": ["true"], "grep": ["a"], "sub": ["-f", "a", "b", "c"], "gsub": ["-f", "a", "b", "c"], "ssub": ["-f", "a", "b", "c"],
+                  "label": ["x,y"], "sec2gmt": ["a"], "sec2gmtdate": ["a"], "group-by": ["a"], "tee": ["out.tmp"], "repeat": ["-n", "2"], "rename": ["a,b"], "count-similar": ["-g", "a"],
+                  "sample": ["-k", "2"], "stats2": ["-a", "cov", "-f", "a,c"], "split": ["-n", "2"], "seqgen": ["--stop", "3"], "fill-down": ["-a"], "nest": ["--ivar", ";", "-f", "a"]}
 VERB_CODES = {"panic": 80, "hang": 72, "internal": 73, "silent-failure": 85}
 
 
@@ -1517,7 +1654,7 @@ def verb_part(ctx, exe):
         gl = VERB_GENERIC if T else [VERB_GENERIC[i] for i in VERB_GENERIC_QUICK]
         for a in gl:
             add(v, "generic", [], list(a), rec)
-        fl = flags[v] if T else (flags[v][:2] + rng.sample(flags[v][2:], min(2, len(flags[v][2:]))))
+        fl = flags[v] if T else (flags[v][:1] + rng.sample(flags[v][1:], min(1, len(flags[v][1:]))))
         fa = VERB_FLAG_ARGS if T else [VERB_FLAG_ARGS[i] for i in VERB_FLAG_ARGS_QUICK]
         for f in fl:
             for x in fa:
@@ -1530,22 +1667,22 @@ def verb_part(ctx, exe):
     with ctx.timed("verb_inproc"):
         res = inproc_many(exe, [g for g in groups if g], timeout_ms=8000)
     # default-ish arguments per verb: the first candidate that runs on a plain stream
-    cand = []
-    for v in verbs:
-        for j, a in enumerate(VERB_DEFAULT_CANDIDATES):
-            chain = [v] + a + (["then", "head", "-n", "4"] if v in ("seqgen", "repeat") else [])
-            cand.append({"id": len(cand), "verb": v, "cand": j, "args": chain, "stdin": rec})
-    cres_ = inproc_many(exe, [cand[k::NJOBS] for k in range(NJOBS)], timeout_ms=8000)
-    defaults, nodefault = {}, []
-    for v in verbs:
-        for c in (c for c in cand if c["verb"] == v):
+    allc = lambda v: ([VERB_PREFERRED[v]] if v in VERB_PREFERRED else []) + VERB_DEFAULT_CANDIDATES
+    defaults, todo = {}, list(verbs)
+    for lo, hi in ((0, 3), (3, 9), (9, 99)):          # most verbs run with no argument or -f a: try the rest only for those which do not
+        cand = []
+        for v in todo:
+            for j, a in list(enumerate(allc(v)))[lo:hi]:
+                chain = [v] + a + (["then", "head", "-n", "4"] if v in ("seqgen", "repeat") else [])
+                cand.append({"id": len(cand), "verb": v, "cand": j, "args": chain, "stdin": rec})
+        cres_ = inproc_many(exe, [g for g in (cand[k::NJOBS] for k in range(NJOBS)) if g], timeout_ms=8000) if cand else {}
+        for c in cand:
             r = cres_.get(c["id"])
-            if r and inproc_class(r) == "ok":
-                defaults[v] = VERB_DEFAULT_CANDIDATES[c["cand"]]
-                break
-        else:
-            nodefault.append(v)
-    NF = 100000 if T else 10000
+            if c["verb"] not in defaults and r and inproc_class(r) == "ok":
+                defaults[c["verb"]] = allc(c["verb"])[c["cand"]]
+        todo = [v for v in todo if v not in defaults]
+    nodefault = todo
+    NF = 100000 if T else 3000
     wide = b",".join(b"k%d=%d" % (i, i) for i in range(NF)) + b"\n"
     streams = [("no-records", [], b""), ("records-without-fields", ["--ijson"], b"{}\n{}\n[{},{}]"), ("field-named-empty", [], b"=1\n=2\n"),
                ("many-fields", [], wide), ("repeated-keys-no-dedupe", ["--no-dedupe-field-names"], b"a=1,a=2,b=3,a=4\na=5,a=6\n"),
@@ -1643,6 +1780,9 @@ PROBES = [
     (["--igen", "--gen-start", "NaN", "--gen-stop", "3", "cat"], b""), (["--igen", "--gen-start", "-Inf", "--gen-stop", "3", "cat"], b""),
     (["seqgen", "--start", "9223372036854775806", "--stop", "9223372036854775807"], b""), (["seqgen", "--start", "1e20", "--stop", "1e21"], b""),
     (["seqgen", "--start", "1", "--stop", "3", "--step", "1e-30"], b""), (["seqgen", "--start", "9223372036854775806", "--stop", "1e19"], b""),
+    (["head", "-n"], b"a=1\n"), (["bar", "--lo"], b"a=1\n"), (["cat", ""], b"a=1\n"), (["sec2gmt", ""], b"a=1\n"), (["sec2gmtdate", ""], b"a=1\n"), (["gap", "-n", "0"], b"a=1\na=2\n"),
+    (["split", "-n", "0"], b"a=1\na=2\n"), (["split", "-m", "0"], b"a=1\na=2\n"), (["lecat", ""], b""), (["termcvt", ""], b""), ([""], b""), (["cat", "then", ""], b"a=1\n"),
+    (["--ijson", "--ojsonl", "cat"], b"[" * 20000), (["-n", "put", 'end{s="[";for(i=0;i<15;i+=1){s=s.s} print json_decode(s)}'], b""),
     (["--ixtab", "--ips", "", "cat"], b"a 1\nb 2\n"), (["--ixtab", "--ifs", "", "cat"], b"a 1\n"),
     (["--ipprint", "--barred-input", "--implicit-csv-header", "cat"], b"no bars\n| 1 |\n"), (["--imd", "--implicit-csv-header", "cat"], b"x\n"),
     (["-n", "put", "end{print percentile([1,2,3,4,5], 9223372036854775807, {\"interpolate_linearly\":true}); print median([], {\"output_array_not_map\":true}); print leftpad(5,10,\"\"); "
@@ -1650,13 +1790,28 @@ PROBES = [
 ]
 
 
-def probes_part(ctx):
+def probes_part(ctx, exe=None):
     def go(p):
         st, out, err = run_cli(ctx, p[0], p[1], timeout=20, max_out=5_000_000)
         return p, c18_classify(st, err), st, len(out), err
     with ctx.timed("regression_probes"):
+        todo = list(PROBES)
+        results = []
+        if exe and ctx.tier == "quick":
+            # in-process first (a process start costs 1-2 s); whatever is not plainly fine there is decided by the real binary
+            reqs = [{"id": i, "args": p[0], "stdin": p[1]} for i, p in enumerate(PROBES)]
+            res = inproc_many(exe, [g for g in (reqs[k::NJOBS] for k in range(NJOBS)) if g], timeout_ms=8000)
+            todo = []
+            for i, p in enumerate(PROBES):
+                r = res.get(i)
+                k = inproc_class(r) if r else "not-run"
+                if k in ("ok", "mlr_error"):
+                    results.append((p, k, r.get("code"), r.get("out_len", 0), r["stderr"]))
+                else:
+                    todo.append(p)
+            todo += PROBES[:2]
         with cf.ThreadPoolExecutor(min(8, NJOBS)) as ex:
-            results = list(ex.map(go, PROBES))
+            results += list(ex.map(go, todo))
     tally = {}
     for (args, data), k, st, nout, err in results:
         ctx.count(("probe", tuple(args))); ctx.dist("probe:" + k)
@@ -1708,7 +1863,7 @@ def run_parts(ctx, exe):
     if want("bif"):
         mats = gen_bif_table(ctx, exe)
         vbad = verb_part(ctx, exe)
-        ok, why = check_props(ctx, "C18/Props.v", ["C18/TableProofs.vo", "C18/VerbProofs.vo", "C18/Harness.vo", "C18/Proofs.vo", "C18/ProofsReaders.vo", "C18/ProofsBar.vo"])
+        ok, why = check_props(ctx, "C18/Props.v", ["C18/TableProofs.vo", "C18/VerbProofs.vo", "C18/Harness.vo", "C18/Proofs.vo", "C18/ProofsReaders.vo", "C18/ProofsBar.vo", "C18/ProofsJson.vo"])
         by_class = bif_oracle(ctx, mats)
         if not ok:
             # a proof obligation broke: the oracles above have reported the failing tuples / verb cases if a table is the reason
@@ -1721,11 +1876,13 @@ def run_parts(ctx, exe):
             verb_part(ctx, exe)
         coq_make(["C18/Harness.vo", "C18/ProofsReaders.vo", "C18/ProofsBar.vo"])
     if want("probes"):
-        probes_part(ctx)
+        probes_part(ctx, exe)
     if want("line"):
         line_reader_correspondence(ctx, exe)
     if want("classified"):
         classified_reader_correspondence(ctx, exe)
+    if want("jsonlayer"):
+        json_layer_correspondence(ctx, exe)
     if want("reader"):
         reader_part(ctx, exe)
     if want("special"):
